@@ -37,12 +37,15 @@ UNIT = Unit(
         Fn(S, "root_hash", impl="CoinMapping", home="C07", implicit_props=("C09",),
            ensures=[C("root", "res == HashVal(novasmt::root_of(self.inner@))", "C07")]),
         Fn(S, "inner", impl="CoinMapping", home="C20", implicit_props=("C09",), ensures=[C("is", "*res == self.inner", "C20")]),
-        Fn(S, "new", impl="CoinMapping", home="C07", implicit_props=("C09",), ensures=[C("wraps", "res.inner == inner", "C07", "C08")]),
+        Fn(S, "new", impl="CoinMapping", home="C07", implicit_props=("C09",), ensures=[C("wraps", "res.inner == inner", "C07", "C08"),
+                    C("empty", "novasmt::root_of(inner@)@ == Seq::new(32, |i: int| 0u8) ==> res@.coins == IMap::<CoinID, CoinDataHeight>::empty() && res@.counts == IMap::<Address, nat>::empty() && res.wf()", "C07", "C20")],
+           injects=[Inject("entry", """proof { if novasmt::root_of(inner@)@ == Seq::new(32, |i: int| 0u8) { novasmt::axiom_zero_root(inner@);
+               assert(raw_view(inner@).coins =~= IMap::<CoinID, CoinDataHeight>::empty()); assert(raw_view(inner@).counts =~= IMap::<Address, nat>::empty()); assert(raw_wf(inner@)); } }""")]),
         Fn("src/state.rs", "apply_tip_906_for_next_state", impl="SealedState", wrap="impl<C: ContentAddrStore> CoinMapping<C>", home="C20", implicit_props=("C09", "C20"),
            sig_subst=[("next_state: &mut UnsealedState<C>", "coins: &mut CoinMapping<C>")],
            rewrites=[("FIELDPARAM", "next_state", "coins"), ("R8",)],
            **st_tip906_transition(proj=True),
-           injects=[Inject(("after_let", "old_tree"), "let ghost raw0 = coins.inner@; let ghost c0 = coins@.coins;"),
+           injects=[Inject(("after_let", "old_tree"), "let ghost raw0 = coins.inner@; let ghost c0 = coins@.coins; proof { lemma_only_coins(raw0); }"),
                     Inject(("after_let", "count"), """let __es = old_tree.iter(); let ghost es = __es@;
                         proof { assert forall|i: int| 0 <= i < es.len() implies is_coin_key((#[trigger] es[i]).0@) by { assert(raw0[es[i].0@].len() > 0); }
                             lemma_seen_finite(es, 0); assert(seen_upto(es, 0) =~= IMap::<CoinID, CoinDataHeight>::empty());
